@@ -37,18 +37,29 @@ Definition macro_value (mt : mtable) (d : macro_def) : option value :=
   | MRef m => env_get mt m
   end.
 
-(* top-level definitions, in program order *)
-Fixpoint collect (ss : list stmt) (rt : rtable) (mt : mtable) : rtable * mtable :=
-  match ss with
-  | [] => (rt, mt)
-  | SDefineRoutine f ps body :: r => collect r (rt ++ [(f, mkRdef ps body)]) mt
-  | SDefineMacro m d :: r =>
-      match macro_value mt d with
-      | Some v => collect r rt (mt ++ [(m, v)])
-      | None => collect r rt mt
-      end
-  | _ :: r => collect r rt mt
+(* routine and macro definitions in program order; a definition may sit inside the
+   branches of an `if` or the body of a loop (never inside a routine) *)
+Fixpoint collect_stmt (fuel : nat) (s : stmt) (acc : rtable * mtable) {struct fuel} : rtable * mtable :=
+  match fuel with
+  | O => acc
+  | S f =>
+    match s with
+    | SDefineRoutine g ps body => (fst acc ++ [(g, mkRdef ps body)], snd acc)
+    | SDefineMacro m d =>
+        match macro_value (snd acc) d with
+        | Some v => (fst acc, snd acc ++ [(m, v)])
+        | None => acc
+        end
+    | SIf _ s1 None => collect_stmt f s1 acc
+    | SIf _ s1 (Some s2) => collect_stmt f s2 (collect_stmt f s1 acc)
+    | SRepeat _ body => collect_stmt f body acc
+    | SBlock ss => fold_left (fun a st => collect_stmt f st a) ss acc
+    | _ => acc
+    end
   end.
+
+Definition collect (ss : list stmt) (rt : rtable) (mt : mtable) : rtable * mtable :=
+  fold_left (fun a st => collect_stmt 64 st a) ss (rt, mt).
 
 (* ---------- dynamic state ---------- *)
 Record sstate := mkS {
